@@ -449,4 +449,35 @@ example : effect ⟨true, true, false, false, true, true⟩
                 { typ := 15, flags := 0x80, afi := 2, safi := 1, npfx := 3 }] }
     = some ⟨0, 6⟩ := by decide
 
+/-! ## C06_handling_independent_of_history -/
+
+/-- The handling of an UPDATE is a function of that UPDATE and of the session's negotiated
+    parameters only: after ANY history of UPDATEs that did not reset the session, the next UPDATE is
+    handled exactly as if it were the first one of a fresh session with the same parameters.
+    (The model of recvMessageloop has no per-session memory; that the real loop has none either is
+    what the sequence part of the session harness checks: every message of generated UPDATE
+    sequences is compared with the model and with its own delivery on a fresh session.) -/
+theorem C06_handling_independent_of_history (c : Cfg) (history : List AMsg) (m : AMsg)
+    (h : ∀ x ∈ history, (sessionAction c x).isReset = false) :
+    sessionRun c (history ++ [m]) = history.map (sessionAction c) ++ sessionRun c [m] ∧
+    sessionRun c [m] = [sessionAction c m] := by
+  constructor
+  · induction history with
+    | nil => rfl
+    | cons x rest ih =>
+      have hx := h x List.mem_cons_self
+      have hr := ih (fun y hy => h y (List.mem_cons_of_mem _ hy))
+      simp only [List.cons_append, sessionRun, hx, Bool.false_eq_true, ↓reduceIte, List.map_cons]
+      rw [hr]
+      simp [sessionRun]
+  · simp only [sessionRun]
+    split <;> rfl
+
+example : ∃ (c : Cfg) (history : List AMsg), history.length = 2 ∧
+    ∀ x ∈ history, (sessionAction c x).isReset = false :=
+  ⟨⟨true, true, false, false, true, true⟩,
+   [{ items := [{ typ := 1, flags := 0x40 }, { typ := 2, flags := 0x40, segs := [2] }], wd := 1 },
+    { items := [{ typ := 1, flags := 0x40 }, { typ := 2, flags := 0x40, segs := [2] }], nlri := 1 }],
+   rfl, by decide⟩
+
 end C06
